@@ -135,6 +135,24 @@ class SymCtx(_Base):
             vals[name] = [str(core.model_value(model, c)) for c in consts]
         return vals
 
+    def _nice_model(self, negated_goal, model):
+        """try to replace a counterexample by one whose input values are small dyadic rationals (exactly representable as
+        floats, so that the float-backend replay follows the same path even at ties / equality boundaries)."""
+        E = core.ENG
+        consts = [c for name, cs in self.inputs.items() if self.kinds.get(name) != 'int' for c in cs]
+        if not consts or len(consts) > 400:
+            return model
+        for denom, bound in ((4, 8), (64, 64)):
+            s2 = z3.Solver()
+            s2.set('timeout', 8000)
+            s2.add(E.constraints)
+            s2.add(negated_goal)
+            for c in consts:
+                s2.add(z3.IsInt(c * denom), c <= bound, c >= -bound)
+            if s2.check() == z3.sat:
+                return s2.model()
+        return model
+
     def _candidate(self, kind, label, detail, model=None):
         if model is None:
             E = core.ENG
@@ -158,6 +176,7 @@ class SymCtx(_Base):
         r, model = E.decide(z3.Not(cond), self.query_timeout_ms)
         self._sample(label, r, 1)
         if r == 'sat':
+            model = self._nice_model(z3.Not(cond), model)
             raise Violation(self._candidate('obligation', label, f'not({z3.simplify(cond).sexpr()[:300]}) is satisfiable', model))
         if r != 'unsat':
             raise Inconclusive(f'solver returned {r} on obligation {label}')
@@ -190,9 +209,11 @@ class SymCtx(_Base):
             self.stats.concrete_checks += 1
             self._sample(label, 'identical-terms', len(fx))
             return
-        r, model = E.decide(z3.Or(diffs) if len(diffs) > 1 else diffs[0], self.query_timeout_ms)
+        goal = z3.Or(diffs) if len(diffs) > 1 else diffs[0]
+        r, model = E.decide(goal, self.query_timeout_ms)
         self._sample(label, r, len(fx))
         if r == 'sat':
+            model = self._nice_model(goal, model)
             bad = None
             for k, d in zip(idx, diffs):
                 if z3.is_true(model.eval(d, model_completion=True)):
